@@ -57,7 +57,32 @@ def rn(rng):
     return E.Num(rng.choice(NUMS))
 
 
+def near_cluster(rng):
+    """distinct numbers that lie within a few units in the last place of each other (what a tolerant comparison would call equal), in random order"""
+    import math
+    r = rng.random()
+    if r < 0.5:
+        x = rng.choice([0.3, 0.1 + 0.2, 1.0, 2251799813685249.0, 1e-300, 123456.789, -0.7, 1e300, 4503599627370497.5])
+        xs = {x}
+        for _ in range(rng.randrange(1, 6)):
+            y = x
+            for _ in range(rng.randrange(1, 4)):
+                y = math.nextafter(y, math.inf if rng.random() < 0.5 else -math.inf)
+            xs.add(y)
+        out = [E.Num(G.f64_bits(v)) for v in xs]
+    elif r < 0.8:
+        b = rng.choice([2 ** 53, 2 ** 60, 2 ** 63 - 4096, 2 ** 63 + 4096, 2 ** 64 - 8192])
+        out = [E.Num("u%d" % (b + 2048 * k)) for k in rng.sample(range(0, 4), rng.randrange(2, 5))]
+    else:
+        b = rng.choice([-(2 ** 53), -(2 ** 60), -(2 ** 63) + 8192])
+        out = [E.Num("i%d" % (b - 2048 * k)) for k in rng.sample(range(0, 4), rng.randrange(2, 5))]
+    rng.shuffle(out)
+    return out
+
+
 def arr_n(rng):
+    if rng.random() < 0.12:
+        return near_cluster(rng)
     n = rng.choice([0, 1, 2, 3, 5, 8, 21, 40, 64]) if rng.random() < 0.93 else rng.choice([33, 65, 129, 257, 300])
     pool = [rn(rng) for _ in range(max(1, n // 3 + 1))]
     return [rng.choice(pool) if rng.random() < 0.6 else rn(rng) for _ in range(n)]
